@@ -113,10 +113,14 @@ class Tracer:
         return self.classify(e, anc)
 
     # ----------------------------------------------------------------- entry points
-    def run_fn(self, f):
-        """paths of function f (async fn -> its coroutine body; #[instrument] wrappers inlined)"""
+    def run_fn(self, f, seed_params=()):
+        """paths of function f (async fn -> its coroutine body; #[instrument] wrappers inlined).
+        seed_params: names of parameters whose tests (`if let Some(x) = p`, `match p`) shall produce edge events `p@Variant`"""
         body = self.crate.user_body(f)
         self.env = {}
+        for p in f.params:
+            if isinstance(p, dict) and p.get('k') == 'bind' and p.get('name') in seed_params:
+                self.env[p['id']] = ('from', p['name'])
         paths = self.expr(body.hir)
         out = set()
         for (ex, t, v) in paths:
@@ -434,36 +438,65 @@ class Tracer:
                 r = {(ex, t, v0 if ex == 'fall' else v) for (ex, t, v) in r}
         return r
 
-    def cond_paths(self, c):
-        """paths of a condition: list of (paths, then_events, else_events)"""
-        if c.get('k') == 'letcond':
+    def cond_eval(self, c):
+        """(paths on which the condition holds, paths on which it does not) - handles `let` conditions, `&&` / `||`
+        chains (edition-2024 let chains) and `!`"""
+        k = c.get('k') if isinstance(c, dict) else None
+        if k == 'letcond':
             tag = variant_tag(c['pat'])
             neg = {'Some': 'None', 'Ok': 'Err', 'None': 'Some', 'Err': 'Ok'}.get(tag)
             src = self.source_label(c['init'])
             if src is not None:
-                # the pattern's own variant is part of the projection of what it binds
                 self.bind_from(c['pat'], src)
-            return self.expr(c['init']), self.edge_event(c['init'], tag), self.edge_event(c['init'], neg)
+            r = self.expr(c['init'])
+            tev, eev = self.edge_event(c['init'], tag), self.edge_event(c['init'], neg)
+            th = {(ex, t + tev if ex == 'fall' else t, v) for (ex, t, v) in r}
+            el = {(ex, t + eev if ex == 'fall' else t, v) for (ex, t, v) in r}
+            return th, el
+        if k == 'binary' and c.get('op') == 'And':
+            lt, le = self.cond_eval(c['l'])
+            cache = {}
+
+            def right(i):
+                if 'r' not in cache:
+                    cache['r'] = self.cond_eval(c['r'])
+                return cache['r'][i]
+            return self.seq(lt, lambda: right(0)), le | self.seq(lt, lambda: right(1))
+        if k == 'binary' and c.get('op') == 'Or':
+            lt, le = self.cond_eval(c['l'])
+            cache = {}
+
+            def right(i):
+                if 'r' not in cache:
+                    cache['r'] = self.cond_eval(c['r'])
+                return cache['r'][i]
+            return lt | self.seq(le, lambda: right(0)), self.seq(le, lambda: right(1))
+        if k == 'unary' and c.get('op') == 'Not':
+            th, el = self.cond_eval(c['e'])
+            return el, th
+        if k == 'block' and not c['stmts'] and 'tail' in c:
+            return self.cond_eval(c['tail'])
+        r = self.expr(c)
         if self.cond_events:
-            inner, pol = c, True
-            while isinstance(inner, dict) and inner.get('k') == 'unary' and inner.get('op') == 'Not':
-                inner, pol = inner['e'], not pol
-            if inner.get('k') == 'path' and inner.get('res') == 'local' and inner.get('name') in self.cond_events:
+            inner = c
+            if isinstance(inner, dict) and (inner.get('k') == 'path' and inner.get('res') == 'local' or inner.get('k') == 'field') \
+                    and inner.get('name') in self.cond_events:
                 n = inner['name']
-                return self.expr(c), (f'?{n}={int(pol)}',), (f'?{n}={int(not pol)}',)
-        return self.expr(c), (), ()
+                th = {(ex, t + (f'?{n}=1',) if ex == 'fall' else t, v) for (ex, t, v) in r}
+                el = {(ex, t + (f'?{n}=0',) if ex == 'fall' else t, v) for (ex, t, v) in r}
+                return th, el
+        return r, r
 
     def if_(self, e):
-        cp, tev, eev = self.cond_paths(e['cond'])
-
-        def branches():
-            t = {(ex, tev + tr, v) for (ex, tr, v) in self.expr(e['then'])}
-            if 'else' in e:
-                el = {(ex, eev + tr, v) for (ex, tr, v) in self.expr(e['else'])}
-            else:
-                el = {('fall', eev, 'unk')}
-            return t | el
-        return self.seq(cp, branches)
+        th, el = self.cond_eval(e['cond'])
+        out = self.seq(th, lambda: self.expr(e['then']))
+        if 'else' in e:
+            out = out | self.seq(el, lambda: self.expr(e['else']))
+        else:
+            out = out | {(ex, t, 'unk' if ex == 'fall' else v) for (ex, t, v) in el}
+        if len(out) > self.max_paths:
+            raise TooComplex(f'more than {self.max_paths} abstract paths')
+        return out
 
     def match(self, e):
         scrut = e['scrut']
